@@ -33,6 +33,8 @@ def check(m, run):
     n_cb = len(run.obs)
     try:
         _sd0.cb2(m, run)
+        _sd0.evx(m, run)       # sampled points are recomputed from the current definition: the evaluators keep nothing between calls (EVX, shared with C01)
+        _sd0.tt2(m, run)       # the tessellation components rebuild whenever they are asked (what a forced rebuild relies on)
         _sd0.ct2(m, run)       # the mesh aggregate equals that of a freshly built container after every rebuild (CT2, shared with C15)
     except _AE as ex:
         run.error(str(ex))
